@@ -7,6 +7,8 @@ import (
 	"strconv"
 	"time"
 
+	xocsp "golang.org/x/crypto/ocsp"
+
 	"github.com/gr33nbl00d/caddy-revocation-validator/config"
 	"github.com/gr33nbl00d/caddy-revocation-validator/core"
 
@@ -193,6 +195,40 @@ func c13Scenarios(disk bool) []*schedScenario {
 			c.hs(0, c.L2),
 		},
 	})
+	// s8: OCSP: two concurrent lookups on one checker (same and different certificate) || Cleanup of a second instance sharing the process-global cache
+	if !disk {
+		oc := newC14Cast()
+		ocspLookup := func(inst int, cert int) schedOp {
+			return schedOp{Name: fmt.Sprintf("ocsp(V%d,c%d)", inst, cert), Fn: func(x *schedCtx) string {
+				ows := x.Vals["ow"].([]*OW)
+				return ows[inst].Lookup(oc.certs[cert], world.Chain(oc.certs[cert], oc.issuers[cert], oc.p.Root)).String()
+			}}
+		}
+		scs = append(scs, &schedScenario{Name: "s8-ocsp-lookups-vs-cleanup", Class: "ocsp",
+			Setup: func(x *schedCtx) {
+				net := world.NewNet()
+				for ci := range oc.certs {
+					iss := oc.issuers[ci]
+					ser := oc.certs[ci].Cert.SerialNumber
+					_ = ser
+					net.Routes[oc.urls[ci]] = &world.Behaviour{Label: "good", Fn: func(req *httpRequestAlias, body []byte) (int, []byte, error) {
+						r, err := xocsp.ParseRequest(body)
+						if err != nil {
+							return 400, nil, nil
+						}
+						return 200, world.BuildOCSP(world.OCSPAnswer{Status: xocsp.Good, Serial: r.SerialNumber, Issuer: iss, Signer: iss, ThisUpdate: vsched.Epoch.Add(-time.Minute)}), nil
+					}}
+				}
+				x.Vals["ow"] = []*OW{NewOW(false, 10*time.Minute, nil, net), NewOW(false, 10*time.Minute, nil, net)}
+				// V1 has looked up c1 before so that its second lookup is a cache hit
+				x.Vals["ow"].([]*OW)[1].Lookup(oc.certs[1], world.Chain(oc.certs[1], oc.issuers[1], oc.p.Root))
+			},
+			Ops: []schedOp{ocspLookup(0, 0), ocspLookup(0, 2), {Name: "cleanup(V1)", Fn: func(x *schedCtx) string {
+				x.Vals["ow"].([]*OW)[1].Chk.Cleanup()
+				return "done"
+			}}},
+		})
+	}
 	// s9: two validator instances refreshing concurrently + a handshake
 	scs = append(scs, &schedScenario{Name: name("s9-two-instances"),
 		Setup: func(x *schedCtx) {
